@@ -19,10 +19,13 @@ ReceiptOk(r) ==
 \* (to emit an event with FORCE_WRITE).  Only the fungible vault has it (fee locking); for every other blueprint the
 \* system refuses the attempt - so nothing but the fee payment can be in a committed failure.
 \*   attempt = [kind "field" | "collection_entry" | "store_entry" | "event" | "owned_vault_lock_fee", flags <<..>>,
-\*              blueprint, result "ok" | error class]
+\*              package "resource" | other, blueprint, result "ok" | error class]
+\* The privileged blueprint is identified by package AND name: a blueprint called "FungibleVault" in another package
+\* has no privilege, nor has another blueprint of the resource package.
+HasPrivilege(a) == a.package = "resource" /\ a.blueprint = "FungibleVault"
 Privileged(a) == \E i \in DOMAIN a.flags : a.flags[i] \in {"FORCE_WRITE", "UNMODIFIED_BASE"}
 PrivilegedOpenOk(a) ==
-  IF Privileged(a) /\ a.blueprint # "FungibleVault"
+  IF Privileged(a) /\ ~HasPrivilege(a)
   THEN a.result = (IF a.kind = "event" THEN "ForceWriteEventFlagsNotAllowed" ELSE "InvalidLockFlags")
   ELSE a.result = "ok"
 =============================================================================
